@@ -12,8 +12,8 @@ Open Scope string_scope.
 Theorem SRC_inventory_node : inv_node = [
   ("enum NodeData", ["PartialEq"; "Eq"; "Clone"; "Debug"; "feature='deser'=>Deserialize"; "feature='deser'=>Serialize"]);
   ("struct Node", ["PartialEq"; "Eq"; "Clone"; "Debug"; "feature='deser'=>Deserialize"; "feature='deser'=>Serialize"]);
-  ("impl Node < T >", ["get"; "get_mut"; "new"; "reuse"; "parent"; "first_child"; "last_child"; "previous_sibling"; "next_sibling"; "is_removed"; "is_detached"]);
-  ("impl fmt::Display for Node < T >", ["fmt"])
+  ("impl Node < T >", ["get := { if let NodeData :: Data (ref data) = self . data { data } else { unreachable ! ('Try to access a freed node') } }"; "get_mut := { if let NodeData :: Data (ref mut data) = self . data { data } else { unreachable ! ('Try to access a freed node') } }"; "new"; "reuse"; "parent := { self . parent }"; "first_child := { self . first_child }"; "last_child := { self . last_child }"; "previous_sibling := { self . previous_sibling }"; "next_sibling := { self . next_sibling }"; "is_removed"; "is_detached"]);
+  ("impl fmt::Display for Node < T >", ["fmt := { if let Some (parent) = self . parent { write ! (f , 'parent: {}; ' , parent) ? ; } else { write ! (f , 'no parent; ') ? ; } if let Some (previous_sibling) = self . previous_sibling { write ! (f , 'previous sibling: {}; ' , previous_sibling) ? ; } else { write ! (f , 'no previous sibling; ') ? ; } if let Some (next_sibling) = self . next_sibling { write ! (f , 'next sibling: {}; ' , next_sibling) ? ; } else { write ! (f , 'no next sibling; ') ? ; } if let Some (first_child) = self . first_child { write ! (f , 'first child: {}; ' , first_child) ? ; } else { write ! (f , 'no first child; ') ? ; } if let Some (last_child) = self . last_child { write ! (f , 'last child: {}; ' , last_child) ? ; } else { write ! (f , 'no last child; ') ? ; } Ok (()) }"])
 ].
 Proof. reflexivity. Qed.
 
